@@ -105,10 +105,6 @@ def updAt : List Nat → (Fields → Fields) → Fields → Fields
   | [], f, m => f m
   | k :: rest, f, m => aset k (.msg (updAt rest f (PVal.asMsg (aget k m)))) m
 
-def msgAt : List Nat → Fields → Fields
-  | [], m => m
-  | k :: rest, m => msgAt rest (PVal.asMsg (aget k m))
-
 /-- the leaf of `decodeQuery` for one key, after `prop.CreateField()` succeeded -/
 def queryLeaf (c : Cfg) (props : List PropDef) (p : PropDef) (loc : List Nat) (trail : List Bytes)
     (values : List Bytes) (st : QS) : Outcome QS :=
@@ -205,7 +201,7 @@ def queryLeaf (c : Cfg) (props : List PropDef) (p : PropDef) (loc : List Nat) (t
           match decOneofMembers c ops ms { m := start, seen := [] } [] none with
           | .ok (r, found, ct, term) =>
             if term == .errIn then .err "token" else
-            match oneofPost ops found ct with
+            match oneofPost ops found ct r.m with
             | .ok tp =>
               if closeOk term then
                 let rm := applyPost ops tp r.m
@@ -221,9 +217,13 @@ def queryLeaf (c : Cfg) (props : List PropDef) (p : PropDef) (loc : List Nat) (t
       | _ => .err "oneof ref"
   | _ => .err "field is not supported for query"
 
-/-- `prop.CreateField()` for a property of the property set at `trail` -/
-def qCreate (p : PropDef) (trail : List Bytes) (st : QS) : Outcome QS :=
+/-- `prop.CreateField()` for a property of the property set `props` at `trail`, whose message is
+at proto location `loc`: flag check, empty path, proto-oneof check (25c97b7), `buildProperty` -/
+def qCreate (props : List PropDef) (p : PropDef) (loc : List Nat) (trail : List Bytes) (st : QS) :
+    Outcome QS :=
   if st.seen.contains (trail ++ [p.jsonName]) then .err "already set"
+  else if groupBusy props p (msgAt loc st.m) then
+    .err "another member of the proto oneof is already set"
   else
     match p.path, p.field with
     | [], .oneof _ => .ok { st with seen := (trail ++ [p.jsonName]) :: st.seen }
@@ -242,7 +242,7 @@ def qEnter (props : List PropDef) (p : PropDef) (loc : List Nat) (trail : List B
     Outcome QS :=
   if st.seen.contains (trail ++ [p.jsonName]) then .ok st
   else
-    (qCreate p trail st).bind fun s =>
+    (qCreate props p loc trail st).bind fun s =>
       if p.path.isEmpty then .ok s
       else if p.field.mutable then
         .ok { s with m := updAt loc (fun m =>
@@ -257,7 +257,7 @@ def queryKey (c : Cfg) : List Bytes → List PropDef → List Nat → List Bytes
     match findProp props (propertyName props tail) with
     | none => .err "no property"
     | some p =>
-      match qCreate p trail st with
+      match qCreate props p loc trail st with
       | .ok st1 => queryLeaf c props p loc trail values st1
       | .err e => .err e
       | .panic w => .panic w
